@@ -327,6 +327,15 @@ func exec(s *xmpp.Session, cl call) (status string) {
 				}
 			case "iq", "msg", "pres":
 				var resp xmlstream.TokenReadCloser
+				if cl.form == "el" || cl.form == "encel" || cl.form == "encv" {
+					if r2, e2, done := familyCall(s, cancelled, cl); done {
+						resp, err = r2, e2
+						if resp != nil {
+							resp.Close()
+						}
+						break
+					}
+				}
 				switch cl.entry {
 				case "iq":
 					if strings.HasPrefix(cl.form, "struct:") {
@@ -712,6 +721,9 @@ func (c *ctxT) genCall(rnd *common.Rand, big int) call {
 		}
 		cl.toks[0] = s
 		cl.toks[len(cl.toks)-1] = s.End()
+		if rnd.Chance(2, 5) && s.Name.Local == loc {
+			cl = familyVariant(rnd, cl)
+		}
 	}
 	return cl
 }
